@@ -183,13 +183,15 @@ def check(pid: str, tier: str, seed: int, replay_path: str = None) -> int:
         wlines, wstatus = run_witnesses(pid, kfs, wd)
         out_lines.extend(wlines)
         # report
-        seen_replays = set()
+        groups = {}
         for f in violations:
-            key = (f["act"], f["clause"])
-            path = write_replay(pid, by_id[f["trace"]], f)
-            if key not in seen_replays or len(seen_replays) < 20:
+            ev = by_id[f["trace"]]["events"][f["line"] - 1]
+            groups.setdefault((f["act"], str(ev.get("fn", ev.get("op", ""))), f["clause"]), []).append(f)
+        for n, (key, fs) in enumerate(sorted(groups.items())):
+            path = write_replay(pid, by_id[fs[0]["trace"]], fs[0])
+            if n < 25:
                 out_lines.append("VIOLATION property=%s replay=%s" % (pid, path))
-            seen_replays.add(key)
+                out_lines.append("  (%d rejection(s): action %s %s, clause %s)" % (len(fs), key[0], key[1], key[2]))
         summary = {}
         for f in others:
             k = (owner_of(f), f["act"], f["clause"])
